@@ -83,7 +83,7 @@ def _status(r):
     return "other"
 
 
-def observe(bdir, ks, cs, ring, wrap, want_bytes=False):
+def observe(bdir, ks, cs, ring, wrap, want_bytes=False, timeout=120):
     """Materialise, run the tools, project.  Returns the record judged by TLC
     (keys without '_') plus diagnostics (keys with '_')."""
     d = core.mkscratch("c16")
@@ -100,7 +100,7 @@ def observe(bdir, ks, cs, ring, wrap, want_bytes=False):
             off.append(off[-1] + len(b))
         if off[-1] != len(din):
             raise core.MachineryError("encoder/offset mismatch")
-        r1 = emu.runtool(bdir, "ovnisort", ["-n", str(ring), td], timeout=300)
+        r1 = emu.runtool(bdir, "ovnisort", ["-n", str(ring), td], timeout=timeout)
         with open(path, "rb") as f:
             dout = f.read()
         st = _status(r1)
@@ -121,11 +121,11 @@ def observe(bdir, ks, cs, ring, wrap, want_bytes=False):
             q = pool.get(dout[e["off"]:e["off"] + e["size"]])
             oid.append(q.popleft() if q else 0)
         fdiff = -1 if din == dout else len(os.path.commonprefix([din, dout]))
-        rc_ = emu.runtool(bdir, "ovnisort", ["-c", td], timeout=300)
+        rc_ = emu.runtool(bdir, "ovnisort", ["-c", td], timeout=timeout)
         chk = {"ok": "ok", "fail": "fail"}.get(_status(rc_), "other")
         st2, same2, r2text = "na", True, ""
         if st == "ok":
-            r2 = emu.runtool(bdir, "ovnisort", ["-n", str(ring), td], timeout=300)
+            r2 = emu.runtool(bdir, "ovnisort", ["-n", str(ring), td], timeout=timeout)
             st2 = _status(r2)
             r2text = r2.text
             with open(path, "rb") as f:
@@ -133,7 +133,7 @@ def observe(bdir, ks, cs, ring, wrap, want_bytes=False):
         ev = "na"
         evtext = ""
         if wrap and st == "ok":
-            er = emu.ovniemu(bdir, td, ("-l",), timeout=300)
+            er = emu.ovniemu(bdir, td, ("-l",), timeout=timeout)
             ev = "ok" if er.accepted else "fail"
             evtext = er.text
         rec = {"n": ring, "k": list(ks), "c": list(cs), "off": off, "oid": oid,
@@ -208,7 +208,9 @@ def judge(t, o):
         if o["oid"] != t["order"]:
             p.append(("wrong-order", "exit 0 but the stream is not the stable sort: ids %s, expected %s"
                       % (o["oid"], t["order"])))
-        if o["st2"] != "ok" or not o["same2"]:
+        # the second run must not change the file; it must succeed when TLC says the
+        # look back still suffices for the sorted stream (t["again"]), else it may fail loudly
+        if not o["same2"] or o["st2"] not in ("ok", "fail") or (t["again"] and o["st2"] != "ok"):
             p.append(("not-idempotent", "second ovnisort: status %s, file %s"
                       % (o["st2"], "unchanged" if o["same2"] else "CHANGED")))
         if t["emu"] and o["emu"] != "ok":
@@ -319,6 +321,10 @@ def tlc_jobs(tier):
         for ring in rings:
             jobs.append({"name": "OvniSortMC/%s ring=%d (%s)" % (cfg, ring, label), "cfg": cfg,
                          "env": {"C16_RING": ring}, "neg": False, "workers": 3 if tier == "quick" else 4})
+    if tier != "quick":
+        jobs.append({"name": "OvniSortMC/OvniSort_Witness_SecondRun.cfg ring=5 (witness: a second run with the same -n "
+                             "can exit 1 on the sorted stream; not a requirement)", "cfg": "OvniSort_Witness_SecondRun.cfg",
+                     "env": {"C16_RING": 5}, "neg": False, "witness": True, "workers": 3})
     for cfg, what in (("OvniSort_Neg_Unstable.cfg", "unstable sort"),
                       ("OvniSort_Neg_NoFullCheck.cfg", "full ring taken for the start of the stream"),
                       ("OvniSort_Neg_NoRebuild.cfg", "ring not rebuilt after a sort"),
@@ -395,6 +401,14 @@ def main(pid, tier):
     exported = [t for tg, t in rx.lines if isinstance(t, dict)]
     if len(exported) < 1000:
         raise core.MachineryError("only %d streams exported:\n%s" % (len(exported), rx.out[-1500:]))
+    # pinned streams (beyond the export bounds), evaluated by TLC in the same way
+    rp = core.tlc("OvniSortCases", "OvniSortCases.cfg", tags=("TR",), workers=1, timeout=600)
+    core.tlc_expect_ok(rp, "OvniSortCases")
+    pinned = [t for tg, t in rp.lines if isinstance(t, dict)]
+    if rp.violated or len(pinned) < 10:
+        raise core.MachineryError("OvniSortCases: %s, %d cases\n%s" % (rp.violated, len(pinned), rp.out[-1500:]))
+    ck.add_tlc(rp, "OvniSortCases (%d pinned streams evaluated by both layers)" % len(pinned))
+    exported = pinned + exported
     ck.phase("tlc_export")
 
     # ---- TLC: Impl => Property and the negative configurations, in the background
@@ -404,7 +418,7 @@ def main(pid, tier):
     try:
         # ---- generated direction
         def replay(t):
-            return observe(bdir, t["k"], t["c"], t["n"], bool(t["emu"]))
+            return observe(bdir, t["k"], t["c"], t["n"], bool(t["emu"]), timeout=15)
         obs_ = core.pmap(replay, exported, workers=max(4, core.NCPU - 6))
         ck.phase("replay")
         agree = 0
@@ -434,7 +448,9 @@ def main(pid, tier):
                     nbundles += 1
                     bd = bundle(bdir, t["k"], t["c"], t["n"], bool(t["emu"]), {"tlc_expected.json": t})
                 ck.violation(what, bd, sig=sig)
-        ck.notes["replay"] = {"streams": len(exported), "agree": agree, "by_class_and_status": classes,
+        ck.notes["replay"] = {"streams": len(exported), "pinned": len(pinned), "agree": agree,
+                              "by_class_and_status": classes,
+                              "second_run_exit1_on_sorted_stream": sum(1 for o in obs_ if o["st2"] == "fail"),
                               "emulator_runs": sum(1 for o in obs_ if o["emu"] != "na"),
                               "second_runs": sum(1 for o in obs_ if o["st2"] != "na"),
                               "tool_differs_from_impl_model": fidelity,
@@ -442,7 +458,7 @@ def main(pid, tier):
         if fidelity:
             core.log("[C16] note: the tool's (status, order) differs from the implementation-layer model on "
                      "%d exported streams (not a violation by itself)" % fidelity)
-        for t, o in list(zip(exported, obs_))[:3] + list(zip(exported, obs_))[-3:]:
+        for t, o in list(zip(exported, obs_))[:4] + list(zip(exported, obs_))[-2:]:
             ck.sample({"ring": t["n"], "stream": show(t["k"], t["c"]), "class": t["exp"],
                        "expected_order": t["order"], "observed": [o["st"], o["oid"]]})
 
@@ -524,6 +540,9 @@ def main(pid, tier):
                                           % (j["cfg"], r.error, r.out[-1500:]))
             continue
         core.tlc_expect_ok(r, j["name"])
+        if j.get("witness"):
+            ck.notes["second_run_may_fail_witness_found"] = bool(r.violated)
+            continue
         if r.violated:
             ck.violation("the model of ovnisort.c (spec/OvniSort.tla, implementation layer) violates %s in %s"
                          % (r.violated, j["name"]), {"tlc.out": r.out}, sig="model-" + str(r.violated))
